@@ -15,6 +15,9 @@ devices, any state type, any `apply`):
                              `apply post obj`, provided `apply` reads the arrays only inside the object's box and
                              the parameters change the arrays only inside device boxes
   C29_loops_partition        each object is applied by exactly one of the two loops
+  C29_decision               for EVERY object of the list, whatever its kind: re-applied by apply_params (and deferred
+                             at placement) ⇔ check_overlap holds with some Device of the list
+  C29_decision_box_only      the decision depends on the object's box only (never on its class or state)
 
 Refutation of the full statement for the tree as found (before the `fix:` commit): `asFound_*` at the end.
 -/
@@ -176,6 +179,22 @@ theorem C29_loops_partition (objs : List (Obj Bool)) (i : Nat) (hi : i < objs.le
   by_cases h : overlapsDeviceWith checkOverlap objs objs[i] = true
   · simp [h]
   · simp [h, overlapsDeviceWith_st]
+
+/-- **C29 (decision, every object of the list, whatever its kind)**: an object is deferred by `place_objects` and
+re-applied by `apply_params` exactly when `check_overlap` holds for it and some Device of the list; otherwise it is
+applied at placement and left alone afterwards.  `Obj` has no kind field: sources, detectors (incl. mode-overlap
+detectors), the volume, static objects and the devices themselves all obey the same rule. -/
+theorem C29_decision (objs : List (Obj Bool)) (i : Nat) (hi : i < objs.length) :
+    ((paramsLoop (fun (_ : Unit) _ => true) () (placeLoop (fun (_ : Unit) _ => false) () objs))[i]'(by
+        simpa [paramsLoop, placeLoop] using hi)).st = true ↔
+      ∃ d ∈ objs, d.isDevice = true ∧ checkOverlap d.box objs[i].box = true := by
+  rw [C29_loops_partition objs i hi, overlapsDevice, overlapsDeviceWith_true_iff]
+
+/-- the decision reads nothing but the box of the object: two list entries with the same box (a source and a
+detector, say) get the same decision, whatever their state or class -/
+theorem C29_decision_box_only (objs : List (Obj σ)) (o o' : Obj σ) (h : o.box = o'.box) :
+    overlapsDevice objs o = overlapsDevice objs o' := by
+  simp only [overlapsDevice, overlapsDeviceWith, h]
 
 /-- **C29 (whole pipeline)**: arrays are functions of the grid cell.  If `apply` reads the arrays only inside
 the object's own box and the parameters change the arrays only
